@@ -350,12 +350,23 @@ func randOps(c *vh.Ctx, allowID bool) []stampOp {
 
 func checkStampBytes(c *vh.Ctx, what string, before, after []byte, ops []stampOp, line string) {
 	sidTouched, sysTouched := false, false
+	wantSid := append([]byte(nil), before[4:6]...)
+	wantSys := append([]byte(nil), before[10:14]...)
 	for _, o := range ops {
-		if o.kind == 0 {
+		switch o.kind {
+		case 0:
 			sidTouched = true
-		} else {
+			wantSid = []byte{byte(o.sid >> 8), byte(o.sid)}
+		case 1:
 			sysTouched = true
+			wantSys = o.sb[:]
+		default:
+			sysTouched = true
+			wantSys = []byte{byte(o.id >> 24), byte(o.id >> 16), byte(o.id >> 8), byte(o.id)}
 		}
+	}
+	if len(after) == len(before) && (!bytes.Equal(after[4:6], wantSid) || !bytes.Equal(after[10:14], wantSys)) {
+		c.Fail(what+": after the chain the session-id / system-bytes field is not the last value stamped (big-endian)", line)
 	}
 	if len(before) != len(after) {
 		c.Fail(what+": frame length changed by re-stamping", line)
